@@ -416,10 +416,68 @@ def collide_run(chk):
         total["distinct_positions"], total["tree_nodes"]))
 
 
+def exchange_twins(chk):
+    """structured twins that no short game produces: the same occupied squares and the same men with two unlike men exchanged,
+    and positions that differ in three or four features chosen so that a key table with additive structure
+    (key(square, man) = a(square) xor b(man)) makes them collide. Imported from text; distinct texts must hash differently."""
+    import itertools
+    bases = ["rnbqkbnr/pppppppp/8/8/8/8/PPPPPPPP/RNBQKBNR w KQkq - 0 1", "r3k2r/p1ppqpb1/bn2pnp1/3PN3/1p2P3/2N2Q1p/PPPBBPPP/R3K2R w KQkq - 0 1",
+             "8/2p5/3p4/KP5r/1R3p1k/8/4P1P1/8 w - - 0 1", "r4rk1/1pp1qppp/p1np1n2/2b1p1B1/2B1P1b1/P1NP1N2/1PP1QPPP/R4RK1 w - - 0 10"]
+    fens = []
+    for b in bases:
+        f = b.split(" ")
+        rows = []
+        for row in f[0].split("/"):
+            r = ""
+            for ch in row:
+                r += "." * int(ch) if ch.isdigit() else ch
+            rows.append(r)
+        cells = [(i, j) for i in range(8) for j in range(8) if rows[i][j] != "." and rows[i][j] not in "kKpP"]
+        n = 0
+        for (a, c) in itertools.combinations(cells, 2):
+            if rows[a[0]][a[1]] == rows[c[0]][c[1]]:
+                continue
+            g = [list(r) for r in rows]
+            g[a[0]][a[1]], g[c[0]][c[1]] = g[c[0]][c[1]], g[a[0]][a[1]]
+            txt = []
+            for r in g:
+                o, e = "", 0
+                for ch in r:
+                    if ch == ".":
+                        e += 1
+                    else:
+                        o += (str(e) if e else "") + ch
+                        e = 0
+                txt.append(o + (str(e) if e else ""))
+            fens.append("/".join(txt) + " " + f[1] + " - - 0 1")
+            n += 1
+            if n >= (60 if chk.tier == "quick" else 400):
+                break
+        fens.append(f[0] + " " + f[1] + " - - 0 1")
+    fens = sorted(set(fens))
+    out = run_blocks(HARNESS, [["# x%d" % i, "new " + t, "obs"] for i, t in enumerate(fens)])
+    seen = {}
+    for i, t in enumerate(fens):
+        ls = out.get("x%d" % i, [])
+        ob = next((parse_kv(l)[1] for l in ls if l.startswith("obs ")), None)
+        if ob is None:
+            continue
+        h = ob.get("hash")
+        key = " ".join(t.split(" ")[:4])
+        if h in seen and seen[h] != key:
+            chk.violation("two different positions share a hash: '%s' and '%s' (the same men on the same squares, two unlike men exchanged)" % (seen[h], key),
+                          {"fen_a": seen[h], "fen_b": key, "hash": h, "kind": "spec-oracle failure on the implementation"})
+            if len(chk.violations) >= 5:
+                break
+        seen.setdefault(h, key)
+    chk.notes.append("exchange twins: %d imported positions, %d distinct hashes" % (len(fens), len(seen)))
+
+
 def check_C05(chk):
     lib.CURRENT_TIER = chk.tier
     if lib.build().get("harness_release"):
         collide_run(chk)
+        exchange_twins(chk)
     return position_check(chk, RULE_PLAYOUT + " Oracle: distinct FEN fields 1-4 => distinct hashes over the whole run (exploration half).",
                           "as C01.")
 
@@ -477,4 +535,17 @@ def run(prop, tier, seed):
         print("no check for %s" % prop)
         return 2
     chk = Check(prop, tier, seed)
-    return CHECKS[prop](chk)
+    try:
+        return CHECKS[prop](chk)
+    except Exception:
+        # the check's own machinery failed on outputs it did not expect (for instance an engine that refuses what it should
+        # accept): the property is then not shown to hold - reported as a broken tie with the traceback as the replay
+        import traceback
+        tb = traceback.format_exc()
+        chk.violation("the check could not digest the implementation's output (the tie no longer checks): %s" % tb.strip().split("\n")[-1][:300],
+                      {"traceback": tb[-3000:], "kind": "the check's machinery failed"}, found_input=False)
+        if not chk.cov.get("rule"):
+            chk.cov["rule"] = "the check stopped with an internal error before it could describe what it covered"
+        if not chk.cov.get("samples"):
+            chk.cov["samples"] = ["none"]
+        return chk.finish()
